@@ -1,7 +1,7 @@
 #!/bin/bash
 # usage: try_mutant.sh <prop> <patch.diff> [extra check args]   — applies the patch to /repo (3-way when the tree has
 # moved since the patch was made), runs the check, reverts
-prop=$1; patch=$2; shift 2
+prop=$1; patch=$(readlink -f "$2"); shift 2
 cd /repo || exit 2
 if git apply --check "$patch" 2>/dev/null; then
   git apply "$patch"
